@@ -368,8 +368,10 @@ func (c *Conn) Write(b []byte) (int, error) {
 		if sz > len(c.writeBuf) {
 			break
 		}
-		if err := c.inspectWrite(c.writeBuf[:sz]); err != nil {
-			return 0, err
+		if !c.writePassthrough {
+			if err := c.inspectWrite(c.writeBuf[:sz]); err != nil {
+				return 0, err
+			}
 		}
 		n, err := c.Conn.Write(c.writeBuf[:sz])
 		c.writeBuf = c.writeBuf[n:]
